@@ -981,6 +981,12 @@ def _parsable_scenarios(R, m, f, codes, memo):
                         return None
                     return all(outs) if kind == 'all' else any(outs)
                 return None
+            if isinstance(t, ast.Compare) and len(t.ops) == 1 and isinstance(t.ops[0], (ast.Is, ast.IsNot)) and isinstance(t.left, ast.Name) and \
+                    t.left.id in st.get('fnvars', ()) and const_val(t.comparators[0], 0) is None:
+                isnone = st['vars'].get(t.left.id) is None
+                return isnone if isinstance(t.ops[0], ast.Is) else not isnone
+            if isinstance(t, ast.Name) and t.id in st.get('fnvars', ()):
+                return st['vars'].get(t.id) is not None
             tx = ctext(t)
             if tx == '%s.valid' % selfn:
                 return sc['valid']
@@ -1033,7 +1039,8 @@ def _parsable_scenarios(R, m, f, codes, memo):
                 other = r if lt == ln else l
                 ot = ctext(other)
                 swapped = lt != ln
-                if st['it'] is not None and ot == '%s.total_seq_count' % st['it'][0]:
+                fn_names = ({st['it'][0]} if st['it'] is not None else set()) | {n_ for n_ in st.get('fnvars', ()) if isinstance(st['vars'].get(n_), tuple)}
+                if ot.endswith('.total_seq_count') and ot[:-len('.total_seq_count')] in fn_names:
                     a_ = {'<': 4, '=': 5, '>': 6}[sc['lentotal']]
                     a_, b_ = (5, a_) if swapped else (a_, 5)
                     return {ast.Eq: a_ == b_, ast.NotEq: a_ != b_, ast.Lt: a_ < b_, ast.LtE: a_ <= b_, ast.Gt: a_ > b_, ast.GtE: a_ >= b_}.get(type(op))
@@ -1107,6 +1114,25 @@ def _parsable_scenarios(R, m, f, codes, memo):
                     raise _Returned('raise')
                 elif isinstance(s0, (ast.Break, ast.Continue)):
                     raise _LoopCtl('break' if isinstance(s0, ast.Break) else 'continue')
+                elif isinstance(s0, ast.Assign) and len(s0.targets) == 1 and isinstance(s0.targets[0], ast.Name) and isinstance(s0.value, ast.Call) and \
+                        call_name(s0.value) == 'next' and s0.value.args and isinstance(s0.value.args[0], ast.GeneratorExp) and \
+                        norm(s0.value.args[0].generators[0].iter) == '_AnsiControlFn' and isinstance(s0.value.args[0].generators[0].target, ast.Name):
+                    # the first colour function for which the filter holds, or the default
+                    g_ = s0.value.args[0].generators[0]
+                    hit = None
+                    for mt, cf in (seq or []):
+                        st['it'] = (g_.target.id, mt, cf)
+                        try:
+                            vs_ = [truth(c_) for c_ in g_.ifs]
+                        finally:
+                            st['it'] = None
+                        if None in vs_:
+                            raise Undecided('filter of %s' % short(s0.value))
+                        if all(vs_):
+                            hit = (mt, cf)
+                            break
+                    st['vars'][s0.targets[0].id] = ('FN', hit) if hit else None
+                    st.setdefault('fnvars', set()).add(s0.targets[0].id)
                 elif isinstance(s0, ast.Assign) and len(s0.targets) == 1:
                     t_ = s0.targets[0]
                     if norm(t_) == '%s.%s' % (selfn, memo):
@@ -1205,7 +1231,14 @@ def P25(m, R):
         if any(isinstance(n, ast.Call) and call_name(n) == 'to_list' for n in f.walk()):
             codes = '%s.to_list()' % f.self_name         # passed straight on to a helper
         else:
-            raise AnalysisError('anchor vanished: to_list() in parsable')
+            # the work is done in a private helper
+            from ..shapes import with_helpers
+            for g_ in with_helpers(m, f, 1)[1:]:
+                for n in g_.walk():
+                    if isinstance(n, ast.Assign) and call_name(n.value) == 'to_list':
+                        codes = norm(n.targets[0])
+            if codes is None:
+                raise AnalysisError('anchor vanished: to_list() in parsable')
     _parsable_scenarios(R, m, f, codes, memo)
     # to_list: every token appended exactly once (a loop with try/int/except, or a comprehension over a convert-or-keep helper)
     tl = m.fn('AnsiSetting.to_list')
